@@ -20,12 +20,23 @@
 (*                   program goes on and renames a partial file onto M.  A     *)
 (*                   buffered writer turns the same event into an error        *)
 (*                   (TornWrite), which is what "fixed" relies on.             *)
+(* Variant "bakrollback": as fixed, but a safety copy T2 of the original is      *)
+(*                   made first and every error is answered by renaming that   *)
+(*                   copy back over M (seed R26-C17): a copy that failed part  *)
+(*                   way is then what the roll-back installs.  "bakchecked" is *)
+(*                   the same with a roll-back that only fires once the copy   *)
+(*                   is known to be complete - safe, kept as a control.        *)
 EXTENDS Core, FsModel
 CONSTANTS Variant
 
 Op(kind, p, p2, d) == [kind |-> kind, p |-> p, p2 |-> p2, d |-> d, n |-> -1]
 \* "ENC" is the (pure) encoding step: it raises for unencodable values and touches nothing
-Program == IF Variant = "code"
+WithBackup == Variant \in {"bakrollback", "bakchecked"}
+Program == IF WithBackup
+           THEN <<Op("open_trunc", "T2", "", ""), Op("write", "T2", "", "Old"), Op("close", "T2", "", ""),
+                  Op("ENC", "", "", ""), Op("open_trunc", "T1", "", ""), Op("write", "T1", "", "New"),
+                  Op("close", "T1", "", ""), Op("rename", "T1", "M", ""), Op("remove", "T2", "", "")>>
+           ELSE IF Variant = "code"
            THEN <<Op("remove", "M", "", ""), Op("ENC", "", "", ""), Op("open_trunc", "M", "", ""),
                   Op("write", "M", "", "New"), Op("close", "M", "", "")>>
            ELSE IF Variant = "inwith"
@@ -49,11 +60,20 @@ StepOp == /\ Running
           /\ UNCHANGED <<encodable, round>>
 Finish == /\ status = "running" /\ pc > Len(Program) /\ status' = "done" /\ UNCHANGED <<fs, pc, encodable, round>>
 Crash == /\ Running /\ status' = "crashed" /\ UNCHANGED <<fs, pc, encodable, round>>
+\* (with a backup the error is first HANDLED: see Handle)
+Raised == IF WithBackup THEN "handling" ELSE "error"
 Fail == /\ Running /\ Program[pc].kind # "ENC"            \* the operation raises OSError, edit returns the error
-        /\ status' = "error" /\ UNCHANGED <<fs, pc, encodable, round>>
+        /\ status' = Raised /\ UNCHANGED <<fs, pc, encodable, round>>
 TornWrite == /\ Running /\ Program[pc].kind = "write"
              /\ \E k \in {0, 1} : fs' = Torn(fs, Program[pc], k)
-             /\ status' \in {"error", "crashed"} /\ UNCHANGED <<pc, encodable, round>>
+             /\ status' \in {Raised, "crashed"} /\ UNCHANGED <<pc, encodable, round>>
+\* the except-branch of the backup variants: put the safety copy back, if there is one (and, "bakchecked", only if the
+\* program got past closing it, i.e. it is known to be complete); it may be killed before it gets there (Crash below)
+Handle == /\ status = "handling"
+          /\ fs' = (IF Get(fs.c, "T2") # "Absent" /\ (Variant = "bakrollback" \/ pc > 3)
+                    THEN Apply(fs, Op("rename", "T2", "M", "")) ELSE fs)
+          /\ status' = "error" /\ UNCHANGED <<pc, encodable, round>>
+HandleCrash == /\ status = "handling" /\ status' = "crashed" /\ UNCHANGED <<fs, pc, encodable, round>>
 \* the kernel takes only part of the data and the call RETURNS (a short count): only a program that ignores the
 \* count goes on as if nothing had happened
 ShortCount == /\ Running /\ Program[pc].kind = "write" /\ Variant = "shortcount"
@@ -67,7 +87,7 @@ Relabel(f) == [c |-> [p \in DOMAIN f.c |-> IF p = "M" THEN "Old"
 Restart == /\ status \in {"crashed", "error"} /\ round = 1 /\ Safe(fs)
            /\ fs' = Relabel(fs) /\ pc' = 1 /\ status' = "running" /\ round' = 2
            /\ encodable' \in BOOLEAN
-Next == StepOp \/ Finish \/ Crash \/ Fail \/ TornWrite \/ ShortCount \/ Restart
+Next == StepOp \/ Finish \/ Crash \/ Fail \/ TornWrite \/ ShortCount \/ Restart \/ Handle \/ HandleCrash
 Spec == Init /\ [][Next]_vars
 
 \* C17: at every point the metafile path holds the complete old or the complete new metafile
